@@ -49,6 +49,17 @@ if ben:
         out.append(f"| {name} | {', '.join(j.get('files', []))} | {'pass' if j.get('existing_tests_with_patch', {}).get('ok') else 'FAIL'} | {j.get('status')} | {', '.join(j.get('alarms', [])) or '-'} | {', '.join(j.get('nonzero_exit', [])) or '-'} |")
     ns = sum(1 for _, j in ben if j.get("status") == "silent")
     out += ["", f"Silent: {ns} of {len(ben)}.", ""]
+ben2 = []
+for d in sorted(glob.glob(f"{ROOT}/seeded/benign2/*-*")):
+    m = f"{d}/meta.json"
+    if os.path.exists(m):
+        ben2.append((os.path.basename(d), json.load(open(m))))
+if ben2:
+    ns2 = sum(1 for _, j in ben2 if j.get("status") == "silent")
+    out += ["### Second pass against the final checks", "",
+            "After the last additions to the checks every behaviour-preserving change was applied once more and the checks that",
+            "exercise the touched layer were run (`meta.json` under `seeded/benign2/` lists them per change).", "",
+            f"Silent: {ns2} of {len(ben2)}." + ("" if ns2 == len(ben2) else " NOT silent: " + ", ".join(n for n, j in ben2 if j.get("status") != "silent")), ""]
 notes = f"{ROOT}/seeded/NOTES.md"
 if os.path.exists(notes):
     out.append(open(notes).read())
